@@ -17,15 +17,15 @@ inductive WTree
   | chain (ls : List WTree)
   | combine (ls : List WTree)
 
-inductive STree
+inductive RSTree
   | leaf (l : SLeaf)
-  | any (ls : List STree)
-  | all (ls : List STree)
+  | any (ls : List RSTree)
+  | all (ls : List RSTree)
 
-inductive CTree
+inductive RCTree
   | leaf (l : CLeaf)
-  | any (ls : List CTree)
-  | all (ls : List CTree)
+  | any (ls : List RCTree)
+  | all (ls : List RCTree)
 
 mutual
 def WTree.eval : WTree → Wait
@@ -38,51 +38,51 @@ def WTree.evalList : List WTree → List Wait
 end
 
 mutual
-def STree.eval : STree → Stop
+def RSTree.eval : RSTree → Stop
   | .leaf l => l.eval
-  | .any ls => stopAny (STree.evalList ls)
-  | .all ls => stopAll (STree.evalList ls)
-def STree.evalList : List STree → List Stop
+  | .any ls => stopAny (RSTree.evalList ls)
+  | .all ls => stopAll (RSTree.evalList ls)
+def RSTree.evalList : List RSTree → List Stop
   | [] => []
-  | t :: ts => t.eval :: STree.evalList ts
+  | t :: ts => t.eval :: RSTree.evalList ts
 end
 
 mutual
-def CTree.eval : CTree → Cond
+def RCTree.eval : RCTree → Cond
   | .leaf l => l.eval
-  | .any ls => retryAny (CTree.evalList ls)
-  | .all ls => retryAll (CTree.evalList ls)
-def CTree.evalList : List CTree → List Cond
+  | .any ls => retryAny (RCTree.evalList ls)
+  | .all ls => retryAll (RCTree.evalList ls)
+def RCTree.evalList : List RCTree → List Cond
   | [] => []
-  | t :: ts => t.eval :: CTree.evalList ts
+  | t :: ts => t.eval :: RCTree.evalList ts
 end
 
 /-! ### the specification side: Boolean formulas, independent of the regenerated bodies -/
 
 mutual
-def CTree.Holds : CTree → Nat → Prop
+def RCTree.Holds : RCTree → Nat → Prop
   | .leaf l, e => l.eval e = true
-  | .any ls, e => CTree.SomeHolds ls e
-  | .all ls, e => CTree.EveryHolds ls e
-def CTree.SomeHolds : List CTree → Nat → Prop
+  | .any ls, e => RCTree.SomeHolds ls e
+  | .all ls, e => RCTree.EveryHolds ls e
+def RCTree.SomeHolds : List RCTree → Nat → Prop
   | [], _ => False
-  | t :: ts, e => t.Holds e ∨ CTree.SomeHolds ts e
-def CTree.EveryHolds : List CTree → Nat → Prop
+  | t :: ts, e => t.Holds e ∨ RCTree.SomeHolds ts e
+def RCTree.EveryHolds : List RCTree → Nat → Prop
   | [], _ => True
-  | t :: ts, e => t.Holds e ∧ CTree.EveryHolds ts e
+  | t :: ts, e => t.Holds e ∧ RCTree.EveryHolds ts e
 end
 
 mutual
-def STree.Holds : STree → Nat → Rat → Rat → Prop
+def RSTree.Holds : RSTree → Nat → Rat → Rat → Prop
   | .leaf l, a, el, up => l.eval a el up = true
-  | .any ls, a, el, up => STree.SomeHolds ls a el up
-  | .all ls, a, el, up => STree.EveryHolds ls a el up
-def STree.SomeHolds : List STree → Nat → Rat → Rat → Prop
+  | .any ls, a, el, up => RSTree.SomeHolds ls a el up
+  | .all ls, a, el, up => RSTree.EveryHolds ls a el up
+def RSTree.SomeHolds : List RSTree → Nat → Rat → Rat → Prop
   | [], _, _, _ => False
-  | t :: ts, a, el, up => t.Holds a el up ∨ STree.SomeHolds ts a el up
-def STree.EveryHolds : List STree → Nat → Rat → Rat → Prop
+  | t :: ts, a, el, up => t.Holds a el up ∨ RSTree.SomeHolds ts a el up
+def RSTree.EveryHolds : List RSTree → Nat → Rat → Rat → Prop
   | [], _, _, _ => True
-  | t :: ts, a, el, up => t.Holds a el up ∧ STree.EveryHolds ts a el up
+  | t :: ts, a, el, up => t.Holds a el up ∧ RSTree.EveryHolds ts a el up
 end
 
 /-! ### documented bounds of a wait tree -/
@@ -169,12 +169,12 @@ end
 /-! ### composed policy over trees -/
 
 structure PTree where
-  retry : Option CTree
+  retry : Option RCTree
   wait : WTree
-  stop : STree
+  stop : RSTree
 
 def PTree.eval (p : PTree) : Composed :=
-  { retry := p.retry.map CTree.eval, wait := p.wait.eval, stop := p.stop.eval }
+  { retry := p.retry.map RCTree.eval, wait := p.wait.eval, stop := p.stop.eval }
 
 /-! ### operator chains and `sum()` -/
 
@@ -222,7 +222,7 @@ def mkFullJitter (m b mx mn : Option Rat) : WLeaf :=
 def mkWaitNone : WLeaf := .fixed 0
 
 /-- `retry_policy(retry=…, wait=…, stop=…)` with omitted components -/
-def mkPolicy (retry : Option CTree) (wait : Option WTree) (stop : Option STree) : PTree :=
+def mkPolicy (retry : Option RCTree) (wait : Option WTree) (stop : Option RSTree) : PTree :=
   { retry := retry,
     wait := wait.getD (.leaf (.fixed dflt_retry_policy_wait_arg)),
     stop := stop.getD (.leaf (.afterAttempt dflt_retry_policy_stop_arg)) }
